@@ -49,7 +49,7 @@ def observe(vh, inputs):
 def run(tier):
     chk = vlib.Check(PROP, tier)
     vh = vlib.build_harness()
-    inputs = families.all_programs(chk, depth_values=1, depth_verdict=0 if tier == "quick" else 1, gen=200 if tier == "quick" else 4000, forms=True)
+    inputs = families.all_programs(chk, depth_values=1, depth_verdict=0 if tier == "quick" else 1, gen=200 if tier == "quick" else 1500, forms=True)
     for c in inputs:
         c["origin"] = "%s/%s" % (c["family"], c["kind"])
     rng = corpus.rng_for(PROP, vlib.seed())
